@@ -46,6 +46,8 @@ CONFIGS = {
     "tsan":   ("clang++", ["-O1", "-g", "-fsanitize=thread", GUARD], False),
     "shim":   ("g++", ["-O2", "-DNDEBUG", GUARD, "-include",
                        os.path.join(VERIF, "harness/sched/atomic_shim.h")], False),
+    "shimtsan": ("clang++", ["-O1", "-g", "-fsanitize=thread", GUARD, "-include",
+                           os.path.join(VERIF, "harness/sched/atomic_shim.h")], False),
     "nohook": ("g++", ["-O2", "-DNDEBUG"], False),
 }
 
@@ -150,7 +152,9 @@ def build_lib(config):
         if amalg:
             inc = ["-I" + os.path.join(d, "amalg")]
             src = os.path.join(d, "amalg", "ada.cpp")
-        if os.path.exists(stamp) and os.path.exists(obj):
+        shim = os.path.join(VERIF, "harness/sched/atomic_shim.h")
+        want = _files_hash([shim]) if ("-include" in flags and os.path.exists(shim)) else "ok"
+        if os.path.exists(stamp) and os.path.exists(obj) and open(stamp).read().strip() == want:
             return True, obj, inc, "cached"
         os.makedirs(d, exist_ok=True)
         if amalg:
@@ -168,12 +172,12 @@ def build_lib(config):
         rc, o, dt = run(cmd)
         if rc != 0:
             return False, None, inc, "compile failed (%s):\n%s" % (" ".join(cmd), o[-4000:])
-        open(stamp, "w").write("ok\n")
+        open(stamp, "w").write(want + "\n")
         log("[vbuild] %s lib built in %.1fs" % (config, dt))
         return True, obj, inc, "built"
 
 
-def build_driver(name, config, sources, extra_flags=(), extra_objs=(), link_lib=True):
+def build_driver(name, config, sources, extra_flags=(), extra_objs=(), link_lib=True, plain_sources=()):
     """Compile harness driver <name> (sources relative to /verif) against config's library.
     Returns (ok, exe_path, message)."""
     comp, flags, amalg = CONFIGS[config]
@@ -186,7 +190,7 @@ def build_driver(name, config, sources, extra_flags=(), extra_objs=(), link_lib=
     else:
         obj, inc = None, ["-I" + os.path.join(REPO, "include")]
     # hash of harness sources (+ headers in harness/ and ref/) decides rebuild
-    deps = list(srcs)
+    deps = list(srcs) + [os.path.join(VERIF, p) for p in plain_sources]
     for sub in ("harness", "ref", "harness/sched"):
         p = os.path.join(VERIF, sub)
         if os.path.isdir(p):
@@ -204,7 +208,16 @@ def build_driver(name, config, sources, extra_flags=(), extra_objs=(), link_lib=
         # the shim is only for the library TU unless the driver asks for it
         cmd = [comp] + COMMON_DEFS + fl + inc + ["-I" + VERIF, "-I" + os.path.join(VERIF, "harness"),
                                                   "-I" + os.path.join(VERIF, "ref")]
-        cmd += list(extra_flags) + srcs + ([obj] if obj else []) + list(extra_objs)
+        # sources that must stay free of sanitizer instrumentation (the cooperative scheduler)
+        plain_objs = []
+        for ps in plain_sources:
+            po = os.path.join(d, name + "." + os.path.basename(ps) + ".o")
+            rc, o, _ = run([comp, "-std=c++20", "-O2", "-g", "-I" + os.path.join(VERIF, "harness"), "-c",
+                            os.path.join(VERIF, ps), "-o", po])
+            if rc != 0:
+                return False, None, "plain source compile failed: " + o[-3000:]
+            plain_objs.append(po)
+        cmd += list(extra_flags) + srcs + ([obj] if obj else []) + list(extra_objs) + plain_objs
         cmd += ["-o", exe, "-lpthread"]
         rc, o, dt = run(cmd)
         if rc != 0:
